@@ -158,6 +158,44 @@ func TestVerifC09Entropy(t *testing.T) {
 			rep.violate("entropy-double-reseed", "two reseeds within a dozen reads", map[string]any{"case": c, "count0": count0, "ops": ops})
 		}
 	}
+	// rngChacha8 (used where AES hardware is missing) shares updateSeed's counter logic: monitors only -
+	// the counter stays within the interval, it restarts exactly at the interval, Read fills the whole
+	// buffer, and no output of 12 bytes or more comes twice
+	crand.Reader = savedReader // the real crypto/rand again: an exhausted script would seed every epoch with zeros
+	for c := 0; c < ncases/4; c++ {
+		r := NewEntropyChacha8().(*rngChacha8)
+		r.count = starts[rng.Intn(len(starts))]
+		count0 := r.count
+		seen := map[string]int{}
+		var ops []string
+		for i := 0; i < 4+rng.Intn(8); i++ {
+			n := lens[rng.Intn(len(lens))]
+			p := make([]byte, n)
+			before := r.count
+			got, err := r.Read(p)
+			ops = append(ops, fmt.Sprintf("R%d", n))
+			rep.Steps++
+			rep.Distribution["chacha8-Read"]++
+			rep.Monitors["chacha8-count"]++
+			want := before + 1
+			if n == 0 {
+				want = before
+			} else if before >= reseedInterval {
+				want = 0
+			}
+			if err != nil || got != n || r.count != want || r.count > reseedInterval {
+				rep.violate("entropy-chacha8-counter", fmt.Sprintf("rngChacha8.Read(%d bytes) at count %d returned (%d, %v) and left count %d (expected %d)", n, before, got, err, r.count, want),
+					map[string]any{"case": c, "count0": count0, "ops": ops})
+			}
+			if n >= 12 {
+				rep.Monitors["chacha8-distinct"]++
+				if j, dup := seen[string(p)]; dup {
+					rep.violate("entropy-chacha8-repeat", fmt.Sprintf("rngChacha8 returned the same %d bytes twice (operations %d and %d)", n, j, i), map[string]any{"case": c, "count0": count0, "ops": ops})
+				}
+				seen[string(p)] = i
+			}
+		}
+	}
 	rep.Extra["entropy_cases"] = rep.Cases
 	rep.write(t, "C09ent.report.json")
 }
